@@ -19,7 +19,7 @@ Lemma protocol_facts_named :
   map fst protocol_facts =
   ["build_lock_taken_before_start_commit"; "build_lock_held_until_result_recorded";
    "walk_probes_build_lock_before_reading_rows"; "cheat_refused_while_in_debt";
-   "job_pipe_made_before_token_destroyed"]%string.
+   "job_pipe_made_before_token_destroyed"; "own_jobserver_slots_fit_select"]%string.
 Proof. reflexivity. Qed.
 
 (* every transaction of builder.rs (the walks of builds and the builders' commits)
